@@ -520,6 +520,10 @@ func buildRegistration(r *RNG, s *RegSpec) *RegBuilt {
 		if s.d("ak.challengeOther") {
 			chal = sha([]byte("other"))
 		}
+		if s.d("ak.challengeShort") {
+			// a proper prefix of the right value (or nothing), or the right value followed by more
+			chal = pick(r, [][]byte{b.CDHash[:16], {}, b.CDHash[:31], append(append([]byte{}, b.CDHash...), 0)})
+		}
 		purpose := []int{2, 3}
 		if s.d("ak.noSign") {
 			purpose = pick(r, [][]int{{3}, {}, {0, 1}})
@@ -569,6 +573,9 @@ func buildRegistration(r *RNG, s *RegSpec) *RegBuilt {
 		nonce := sha(signed)
 		if s.d("apple.nonceOther") {
 			nonce = sha(append([]byte{1}, signed...))
+		}
+		if s.d("apple.nonceShort") {
+			nonce = pick(r, [][]byte{nonce[:16], {}, nonce[:31], append(append([]byte{}, nonce...), 0)})
 		}
 		exts := []pkix.Extension{appleNonceExt(nonce)}
 		if s.d("apple.noNonce") {
@@ -706,6 +713,9 @@ func buildRegistration(r *RNG, s *RegSpec) *RegBuilt {
 		nonce := sha(signed)
 		if s.d("sn.nonceOther") {
 			nonce = sha(append([]byte{1}, signed...))
+		}
+		if s.d("sn.nonceShort") {
+			nonce = pick(r, [][]byte{nonce[:16], {}, nonce[:31], append(append([]byte{}, nonce...), 0)})
 		}
 		payload, _ := json.Marshal(M{"nonce": stdB64(nonce), "timestampMs": time.Now().UnixMilli(), "apkPackageName": "com.google.android.gms",
 			"apkCertificateDigestSha256": []string{stdB64(sha([]byte("apk")))}, "ctsProfileMatch": true, "basicIntegrity": true, "evaluationType": "BASIC"})
